@@ -266,6 +266,10 @@ def correspondence(ctx, summ):
     for nm in names:
         for d0, cnt in spans:
             cases.append((nm, d0, cnt))
+    # asked in a seeded random order, so that every harness process looks every name up again and again between
+    # look-ups of all the others (a resolution that depends on what was resolved before - a cache, a table built
+    # lazily - is then exercised, not only the first look-up of each name)
+    ctx.rng.shuffle(cases)
     impl = run_harness("named", [hline("hol", nm, [d0, cnt]) for nm, d0, cnt in cases])
     model = coq_eval("Run.RunNamed", "runNamed", [[1] + enc(nm) + [d0, cnt] for nm, d0, cnt in cases], ctx.work,
                      shard=max(8, len(cases) // 64), tag="tab")
